@@ -118,9 +118,14 @@ std::optional<datetime> file_modified_time_reply::parse_datetime(const reply & r
         return std::nullopt;
     }
 
-    /* Are there any chars after the '.'? */
-    if (time_val.size() > fractions_pos)
+    /* The optional fractions: a period followed by at least one digit. */
+    if (time_val.size() > min_time_val_size)
     {
+        if (time_val[min_time_val_size] != '.')
+        {
+            return std::nullopt;
+        }
+
         if (!utils::try_parse_uint32(time_val.substr(fractions_pos), result.fractions))
         {
             return std::nullopt;
